@@ -9,15 +9,32 @@ Oracles after every step (no function-level reference is needed, only that evalu
 """
 import copy
 import random
+import signal
+import time
 from fractions import Fraction
 
 from . import model as M
 from .core import HarnessError, import_library
 from .seams import Seam, SimPoint
 
+OP_TIME_LIMIT_S = 30
+
+
+class _OpTimeout(BaseException):
+    pass
+
+
+class _AbandonRun(Exception):
+    pass
+
+
+def _raise_op_timeout(signum, frame):
+    raise _OpTimeout()
+
+
 TS = ["1/2", "1/3", "2/3", "1/4", "3/4", "1/5", "5/8"]
 MAXWORLD = 6
-PROFILES = ["frac", "frac", "vec", "fvec", "ffloat", "ivec", "sim-full", "sim-minimal", "sim-nofloat", "sim-bounded", "sim-inplace"]
+PROFILES = ["frac", "frac", "vec", "fvec", "fvec", "ffloat", "ivec", "sim-full", "sim-minimal", "sim-nofloat", "sim-bounded", "sim-inplace"]
 MUTATORS = ["knot_insert", "knot_remove", "degree_increase", "degree_decrease", "knot_clean", "degree_clean", "clean",
             "set_ctrlpoints", "set_weights", "set_knotvector", "set_degree", "update", "fit_curve", "fit_points", "fit_function"]
 COMPOSITE = ("knot_clean", "degree_clean", "clean")
@@ -59,11 +76,13 @@ def gen_plan(prop, seed, tier):
     if profile == "sim-bounded":
         cfg["bound"] = rng.choice([40, 300, 4000, 10 ** 6])
     ops = []
-    ncreate = rng.randint(1, 3)
+    ncreate = rng.randint(1, 3) if profile != "fvec" else rng.randint(2, 3)
     for i in range(ncreate):
         layout = rng.choice(["independent", "independent", "shared-kv", "shared-all", "copy", "deepcopy", "elevated-line"]) if i > 0 else \
             rng.choice(["independent", "independent", "independent", "elevated-line"])
         rational = rng.random() < 0.4
+        if profile == "fvec" and rng.random() < 0.4:
+            layout = "elevated-line"
         ops.append({"op": "create", "layout": layout, "src": rng.randrange(8),
                     "spec": gen_spec(rng, cls, 2, rational), "noctrl": rng.random() < 0.05})
     nops = rng.randint(3, 22 if tier == "thorough" else 12)
@@ -250,7 +269,10 @@ class CurveEngine:
                 continue
             if not self.world:
                 continue
-            self.step(ctx, op)
+            try:
+                self.step(ctx, op)
+            except _AbandonRun:
+                return
 
     def add(self, ctx, curve, where):
         if not isinstance(curve, self.Curve):
@@ -340,11 +362,27 @@ class CurveEngine:
             self.seam.arm()
         exc = None
         result = None
+        guard = kind in ("project", "intersect")     # numeric searches without a step bound (C19/C20 territory)
+        if guard:
+            old_handler = signal.signal(signal.SIGALRM, _raise_op_timeout)
+            old_timer = signal.setitimer(signal.ITIMER_REAL, OP_TIME_LIMIT_S)
+            t_start = time.time()
         try:
             result = call()
+        except _OpTimeout:
+            # a search that does not come back is not a verdict about C15: the run ends here, unjudged
+            self.seam.disarm()
+            ctx.count("search_did_not_terminate_run_abandoned")
+            ctx.log(kind, "abandoned")
+            raise _AbandonRun()
         except Exception as e:  # noqa
             exc = e
         finally:
+            if guard:
+                signal.setitimer(signal.ITIMER_REAL, 0)
+                signal.signal(signal.SIGALRM, old_handler)
+                if old_timer[0] > 0:
+                    signal.setitimer(signal.ITIMER_REAL, max(1.0, old_timer[0] - (time.time() - t_start)))
             fired = self.seam.disarm() if not composite else False
         if invalid:
             ctx.fault("invalid-request:" + label)
@@ -750,17 +788,27 @@ class CurveEngine:
             return (lambda: fn(a, g, method)), None, faulty, "Integrate." + what
         if kind == "project":
             # only straight polylines of float points: Newton's iteration is exact there (the search has no step bound)
-            if not has or a.weights is not None or self.cfg["profile"] != "fvec" or not self.polyline_like(a):
+            if self.cfg["profile"] != "fvec":
+                return None, None, False, kind
+            cands = [c for c in self.world if c.ctrlpoints is not None and c.weights is None and self.polyline_like(c)]
+            if not cands:
                 return None, None, False, kind   # zero-length segment or jump: Newton divides 0/0 and span(nan) never returns
+            a = a if any(a is c for c in cands) else cands[rng.randrange(len(cands))]
             pt = (float(rng.randint(-9, 9)), float(rng.randint(-9, 9)) + 0.5)
             return (lambda: lib.Projection.point_on_curve(pt, a)), None, False, "Projection"
         if kind == "intersect":
-            if not has or b.ctrlpoints is None or self.cfg["profile"] != "fvec" or a is b:
+            if self.cfg["profile"] != "fvec":
                 return None, None, False, kind
-            if a.weights is not None or b.weights is not None:
+
+            def usable(c):
+                return c.ctrlpoints is not None and c.weights is None and self.alpha(c) is not None and \
+                    (self.polyline_like(c) or (c.degree <= 2 and c.npts <= 4 and c.degree >= 1))
+            cands = [c for c in self.world if usable(c)]
+            if len(cands) < 2:
                 return None, None, False, kind
-            if not (self.polyline_like(a) and self.polyline_like(b)) and (a.degree > 2 or b.degree > 2 or a.npts > 4 or b.npts > 4):
-                return None, None, False, kind
+            if not (usable(a) and usable(b)) or a is b:
+                i = rng.randrange(len(cands))
+                a, b = cands[i], cands[(i + 1 + rng.randrange(len(cands) - 1)) % len(cands)]
             return (lambda: lib.Intersection.curve_and_curve(a, b)), None, False, "Intersection"
         if kind == "str":
             return (lambda: str(a)), None, False, "str"
